@@ -702,4 +702,151 @@ theorem load_wf {bs : Bytes} {f : FileS} (h : load bs = some f) : ∀ s ∈ f.se
   rw [← hbody]
   exact fileFromBytes_wf hf sec hsec
 
+def itemEntry (h : Header) : Item → Option Entry
+  | .kv k _ vals => some { sect := h.name, sub := h.sub, key := k, value := valText vals }
+  | .misc _ => none
+
+theorem bodyEntries_mid (h : Header) : ∀ (m rest : List Event) (cur : Option Bytes) (acc : Bytes),
+    m.all isMid = true → bodyEntries h (m ++ rest) cur acc = bodyEntries h rest cur acc := by
+  intro m
+  induction m with
+  | nil => intro rest cur acc _; rfl
+  | cons e m ih =>
+    intro rest cur acc hm
+    simp only [List.all_cons, Bool.and_eq_true] at hm
+    have := ih rest cur acc hm.2
+    cases e <;> simp [isMid, evIsWs] at hm <;> cases cur <;> simp [bodyEntries, this]
+
+theorem bodyEntries_cont (h : Header) (k : Bytes) : ∀ (r rest : List Event) (acc : Bytes), contOk r = true →
+    bodyEntries h (r ++ rest) (some k) acc =
+      { sect := h.name, sub := h.sub, key := k, value := acc ++ valText r } :: bodyEntries h rest none [] := by
+  intro r
+  fun_induction contOk r
+  · intro rest acc _; simp [bodyEntries, valText]
+  · rename_i c r' ih
+    intro rest acc hc
+    simp only [List.cons_append, bodyEntries]
+    rw [ih rest (acc ++ c) hc]
+    simp [valText]
+  · rename_i c r' ih
+    intro rest acc hc
+    simp only [List.cons_append, bodyEntries]
+    rw [ih rest acc hc]
+    simp [valText]
+  · intro rest acc hc; simp at hc
+
+/-- the entries of a well-formed body: one per key item, with the concatenated text of its value events -/
+theorem bodyEntries_items (h : Header) : ∀ (is : List Item) (rest : List Event), (∀ i ∈ is, i.ok = true) →
+    bodyEntries h (flatten is ++ rest) none [] = is.filterMap (itemEntry h) ++ bodyEntries h rest none [] := by
+  intro is
+  induction is with
+  | nil => intro rest _; simp [flatten]
+  | cons it is ih =>
+    intro rest hok
+    have hrest : ∀ i ∈ is, i.ok = true := fun i hi => hok i (by simp [hi])
+    have hit := hok it (by simp)
+    have hfl : flatten (it :: is) ++ rest = it.events ++ (flatten is ++ rest) := by simp [flatten]
+    rw [hfl]
+    cases it with
+    | misc e =>
+      simp only [Item.ok] at hit
+      have : bodyEntries h (Item.events (.misc e) ++ (flatten is ++ rest)) none [] =
+          bodyEntries h (flatten is ++ rest) none [] := by
+        cases e <;> simp [evIsWs, evIsNewline, isComment] at hit <;> simp [Item.events, bodyEntries]
+      rw [this, ih rest hrest]
+      simp [List.filterMap_cons, itemEntry]
+    | kv k mid vals =>
+      simp only [Item.ok, Bool.and_eq_true] at hit
+      simp only [Item.events, List.cons_append, List.append_assoc, bodyEntries]
+      rw [bodyEntries_mid h mid _ _ _ hit.1.1]
+      have hv : bodyEntries h (vals ++ (flatten is ++ rest)) (some k) [] =
+          { sect := h.name, sub := h.sub, key := k, value := valText vals } :: bodyEntries h (flatten is ++ rest) none [] := by
+        have hvo := hit.1.2
+        unfold valsOk at hvo
+        split at hvo
+        · simp [bodyEntries, valText]
+        · rename_i a r
+          simp only [List.cons_append, bodyEntries]
+          rw [bodyEntries_cont h k r _ _ hvo]
+          simp [valText]
+        · simp at hvo
+      rw [hv, ih rest hrest]
+      simp [List.filterMap_cons, itemEntry]
+
+theorem entries_items (h : Header) (is : List Item) (hok : ∀ i ∈ is, i.ok = true) :
+    bodyEntries h (flatten is) none [] = is.filterMap (itemEntry h) := by
+  have := bodyEntries_items h is [] hok
+  simpa [bodyEntries] using this
+
+/-- `set` in terms of entries: the entries before the last one with the key, that entry with the
+new (escaped) value text, the entries after it — nothing else -/
+theorem set_entries (h : Header) (w : Ws) (nl : Bytes) (key value : Bytes) (is : List Item)
+    (hok : ∀ i ∈ is, i.ok = true) (sp : KeySplit key is)
+    (hset : setBody w nl (flatten is) key value =
+      flatten (sp.pre ++ .kv sp.k sp.mid [.value (escapeValue value)] :: sp.post)) :
+    bodyEntries h (flatten is) none [] =
+      sp.pre.filterMap (itemEntry h) ++ [{ sect := h.name, sub := h.sub, key := sp.k, value := valText sp.vals }] ++
+        sp.post.filterMap (itemEntry h) ∧
+    bodyEntries h (setBody w nl (flatten is) key value) none [] =
+      sp.pre.filterMap (itemEntry h) ++ [{ sect := h.name, sub := h.sub, key := sp.k, value := escapeValue value }] ++
+        sp.post.filterMap (itemEntry h) := by
+  obtain ⟨pre, k, mid, vals, post, his, hk, hpost⟩ := sp
+  subst his
+  simp only at hset ⊢
+  have hok' : ∀ i ∈ pre ++ Item.kv k mid [.value (escapeValue value)] :: post, i.ok = true := by
+    intro i hi
+    simp only [List.mem_append, List.mem_cons] at hi
+    rcases hi with hi | rfl | hi
+    · exact hok i (by simp [hi])
+    · have := hok (.kv k mid vals) (by simp)
+      simp only [Item.ok, Bool.and_eq_true] at this ⊢
+      exact ⟨⟨this.1.1, rfl⟩, by simp⟩
+    · exact hok i (by simp [hi])
+  constructor
+  · rw [entries_items h _ hok]; simp [List.filterMap_append, itemEntry]
+  · rw [hset, entries_items h _ hok']; simp [List.filterMap_append, itemEntry, valText]
+
+
+theorem dropWsEnd_entries (h : Header) (pre : List Item) :
+    (dropWsEnd pre).filterMap (itemEntry h) = pre.filterMap (itemEntry h) := by
+  unfold dropWsEnd
+  split
+  · rename_i e heq
+    split
+    · rcases eq_nil_or_snoc pre with rfl | ⟨p, x, rfl⟩
+      · simp at heq
+      · simp at heq; subst heq; simp [List.filterMap_append, itemEntry]
+    · rfl
+  · rfl
+
+theorem dropNlHead_entries (h : Header) (post : List Item) :
+    (dropNlHead post).filterMap (itemEntry h) = post.filterMap (itemEntry h) := by
+  cases post with
+  | nil => rfl
+  | cons it r =>
+    cases it with
+    | misc e => by_cases he : evIsNewline e = true <;> simp [dropNlHead, he, List.filterMap_cons, itemEntry]
+    | kv k m v => rfl
+
+/-- `remove` in terms of entries: exactly the last entry with the key disappears -/
+theorem remove_entries (h : Header) (pre : List Item) (k : Bytes) (mid vals : List Event) (post : List Item)
+    (hok : ∀ i ∈ pre ++ .kv k mid vals :: post, i.ok = true) :
+    bodyEntries h (flatten (pre ++ .kv k mid vals :: post)) none [] =
+      pre.filterMap (itemEntry h) ++ [{ sect := h.name, sub := h.sub, key := k, value := valText vals }] ++
+        post.filterMap (itemEntry h) ∧
+    bodyEntries h (removeInternal (flatten (pre ++ .kv k mid vals :: post)) (flatten pre).length
+        ((flatten pre).length + 1 + mid.length + vals.length) true) none [] =
+      pre.filterMap (itemEntry h) ++ post.filterMap (itemEntry h) := by
+  constructor
+  · rw [entries_items h _ hok]; simp [List.filterMap_append, itemEntry]
+  · rw [removeInternal_items pre k mid vals post hok]
+    have h1 := dropWsEnd_sub pre
+    have h2 := dropNlHead_sub post
+    have hok' : ∀ i ∈ dropWsEnd pre ++ dropNlHead post, i.ok = true := by
+      intro i hi
+      rcases List.mem_append.mp hi with hi | hi
+      · exact hok i (by simp [h1.1 i hi])
+      · exact hok i (by simp [h2.1 i hi])
+    rw [entries_items h _ hok', List.filterMap_append, dropWsEnd_entries, dropNlHead_entries]
+
 end GixModel.C28
